@@ -225,8 +225,7 @@ theorem dfs_single : (singleRouter S e par f).dfs = dfsBottomUp e.topo.n (single
 
 theorem singleRouter_graph (L : Fs.Router.Laws (routerOps S))
     (hnb : ∀ i, i < e.topo.n → ∀ p, p ∈ e.topo.nbrs i → p.1 < e.topo.n)
-    (hlow : ∀ i p, Fs.Router.cand (routerOps S) e.mask f i p = true →
-      S.lt S.lowest (S.div (S.sub (f i) (f p.1)) p.2) = true) :
+    (hlow : Fs.C04.HLow S e f) :
     SingleGraph e.topo.n (singleRouter S e par f) (rowRecv S e f) (routerSkip e par) := by
   have hr0 := recv0_single S e par f
   have hrecv : ∀ i, i < e.topo.n → (singleRouter S e par f).recv i = [rowRecv S e f i] := by
@@ -258,8 +257,7 @@ theorem singleRouter_graph (L : Fs.Router.Laws (routerOps S))
 the receiver table -/
 theorem single_donors_inverse (L : Fs.Router.Laws (routerOps S))
     (hnb : ∀ i, i < e.topo.n → ∀ p, p ∈ e.topo.nbrs i → p.1 < e.topo.n)
-    (hlow : ∀ i p, Fs.Router.cand (routerOps S) e.mask f i p = true →
-      S.lt S.lowest (S.div (S.sub (f i) (f p.1)) p.2) = true)
+    (hlow : Fs.C04.HLow S e f)
     (i : Nat) (hi : i < e.topo.n) (d : Nat) (hne : d ≠ i) :
     d ∈ (singleRouter S e par f).donors i ↔ d < e.topo.n ∧ recv0 (singleRouter S e par f) d = i :=
   mem_donors_ne (singleRouter_graph S e par f L hnb hlow) i hi d hne
@@ -268,8 +266,7 @@ theorem single_donors_inverse (L : Fs.Router.Laws (routerOps S))
 appears after its receiver -/
 theorem single_dfs (L : Fs.Router.Laws (routerOps S))
     (hnb : ∀ i, i < e.topo.n → ∀ p, p ∈ e.topo.nbrs i → p.1 < e.topo.n)
-    (hlow : ∀ i p, Fs.Router.cand (routerOps S) e.mask f i p = true →
-      S.lt S.lowest (S.div (S.sub (f i) (f p.1)) p.2) = true) :
+    (hlow : Fs.C04.HLow S e f) :
     (singleRouter S e par f).dfs.Perm (range e.topo.n) ∧
     ∀ pre x post, (singleRouter S e par f).dfs = pre ++ x :: post →
       recv0 (singleRouter S e par f) x = x ∨ recv0 (singleRouter S e par f) x ∈ pre := by
